@@ -3,12 +3,21 @@ import PorepyVerif.Common.Wire
 import PorepyVerif.C38.Model
 open Lean PV PorepyVerif.C38
 
-def jGrid (j : Json) : R GridInfo := do
+structure GridIn where
+  info : GridInfo
+  dim : Nat
+  nodes : List Pt
+  centers : List Pt
+
+def jGrid (j : Json) : R GridIn := do
   let c ← fBool j "cart"
   let nf ← fNats j "nfaces"
   let nn ← fNats j "nnodes"
+  let d ← fNat j "dim"
+  let nodes ← fRatss j "nodes"
+  let centers ← fRatss j "centers"
   if nf.length != nn.length then throw "nfaces/nnodes length mismatch" else
-  pure ⟨c, nf, nn⟩
+  pure ⟨⟨c, nf, nn⟩, d, nodes, centers⟩
 
 def ofNatss (l : List (List Nat)) : Json := ofList ofNats l
 def ofRatss (l : List (List Rat)) : Json := ofList ofRats l
@@ -17,26 +26,38 @@ def ofRatsss (l : List (List (List Rat))) : Json := ofList ofRatss l
 /-- export → file → reader → import for one dimension; everything the harness compares -/
 def runDim (j : Json) : R Json := do
   let dim ← fNat j "dim"
-  let gs ← field j "grids" >>= jList jGrid
+  let L ← fRat j "L"
+  let gin ← field j "grids" >>= jList jGrid
+  let gs := gin.map (·.info)
   let sides ← fNats j "sides"
   let scalar ← fRatss j "scalar"
   let vector ← field j "vector" >>= jList (jList (jList jRat))
+  let pscalar ← fRatss j "pscalar"
+  let pvector ← field j "pvector" >>= jList (jList (jList jRat))
   let groups := groupsDim dim gs
   let ids := groups.map (·.2)
   let keys := groups.map (·.1)
   let sizes := entitySizes sides (gs.map (·.ncells))
   if scalar.map List.length != sizes then throw "scalar data do not fit the entity sizes" else
   if vector.map List.length != sizes then throw "vector data do not fit the entity sizes" else
+  let gridPts := gin.map (fun g => gridPoints g.dim g.nodes g.centers)
+  let nodeSizes := entitySizes sides (gridPts.map List.length)
+  if pscalar.map List.length != nodeSizes then throw "point scalar data do not fit the node counts" else
+  if pvector.map List.length != nodeSizes then throw "point vector data do not fit the node counts" else
   let poly := isPoly dim gs
-  let sBlocks := exportField (0 : Rat) ids scalar
-  let vBlocks := exportField ([] : List Rat) ids vector
-  let sImp := importField (0 : Rat) ids (readBack poly keys sBlocks) sizes
-  let vImp := (importField ([] : List Rat) ids (readBack poly keys vBlocks) sizes).map List.flatten
+  let fileS := exportMesh (0 : Rat) L gridPts ids scalar pscalar
+  let fileV := exportMesh ([] : List Rat) L gridPts ids vector pvector
+  if !pointsCompatible L gridPts fileS.pts then throw "points rejected" else
+  let sImp := importField (0 : Rat) ids (readBack poly keys fileS.cellBlocks) sizes
+  let vImp := (importField ([] : List Rat) ids (readBack poly keys fileV.cellBlocks) sizes).map List.flatten
+  let psImp := importPointField nodeSizes fileS.pointValues
+  let pvImp := (importPointField nodeSizes fileV.pointValues).map List.flatten
   pure (obj [("poly", Json.bool poly), ("keys", ofNats keys), ("cell_ids", ofNatss ids),
              ("cell_ids_as_coded", ofNatss (cellIdsAsCoded dim gs)),
-             ("sizes", ofNats sizes),
-             ("s_blocks", ofRatss sBlocks), ("v_blocks", ofRatsss vBlocks),
-             ("s_imp", ofRatss sImp), ("v_imp", ofRatss vImp)])
+             ("sizes", ofNats sizes), ("node_sizes", ofNats nodeSizes), ("pts", ofRatss fileS.pts),
+             ("s_blocks", ofRatss fileS.cellBlocks), ("v_blocks", ofRatsss fileV.cellBlocks),
+             ("ps_file", ofRats fileS.pointValues), ("pv_file", ofRatss fileV.pointValues),
+             ("s_imp", ofRatss sImp), ("v_imp", ofRatss vImp), ("ps_imp", ofRatss psImp), ("pv_imp", ofRatss pvImp)])
 
 def jPair (j : Json) : R (Rat × Rat) := do
   match ← jList jRat j with
@@ -57,18 +78,72 @@ def runTime (j : Json) : R Json := do
       | some r => obj [("time", ofRat r.time), ("dt", ofRat r.dt), ("times", ofRats r.expTimes), ("dts", ofRats r.expDt)]
     pure (obj [("times", ofRats m.expTimes), ("dts", ofRats m.expDt), ("set", setj)])
 
-def runPvd (j : Json) : R Json := do
-  let steps ← fNats j "steps"
-  match pvdSelect (steps.map (fun s => (s, s))) with
-  | none => pure (err "IndexError")
-  | some (m, files) => pure (obj [("step", ofNat m), ("files", ofNats files)])
+/-- the conventional pvd file: entries (label as character codes, file suffix, file name) -/
+def runPvdLabels (j : Json) : R Json := do
+  let es ← field j "entries" >>= jList (fun e => do
+    let l ← fNats e "label"
+    let s ← fNat e "suffix"
+    let f ← fStr e "file"
+    pure (l, s, f))
+  match pvdSelectLabels es with
+  | none => pure (err "ValueError")
+  | some (i, files) => pure (obj [("index", ofNat i), ("files", ofList Json.str files)])
+
+def appOf : Nat → Appendix
+  | 0 => .none
+  | 1 => .mortar
+  | 2 => .constant
+  | _ => .constantMortar
+
+def pieceStr (padded : Bool) : Piece → String
+  | .num n => let s := toString n; if padded then "".pushn '0' (6 - s.length) ++ s else s
+  | .word 0 => "mortar"
+  | .word 1 => "constant"
+  | .word _ => "c38"
+
+/-- render a name; only the time step (last piece when present) is zero padded -/
+def nameStr (ps : List Piece) (hasStep : Bool) : String :=
+  let n := ps.length
+  "_".intercalate ((ps.zipIdx).map (fun (p, i) => pieceStr (hasStep && i + 1 == n) p)) ++ ".vtu"
+
+def runNames (j : Json) : R Json := do
+  let fs ← field j "files" >>= jList (fun e => do
+    let a ← fNat e "app"
+    let d ← fNat e "dim"
+    let s ← field e "step" >>= jOpt jNat
+    pure (a, d, s))
+  let names := fs.map (fun (a, d, s) => makeName [.word 2] (appOf a) d s)
+  let parsed := names.map (fun ps => match parseName ps, suffixIndex ps with
+    | some (d, sd), some i => Json.arr #[ofNat d, Json.bool sd, ofNat i]
+    | _, _ => Json.null)
+  pure (obj [("names", ofList Json.str ((names.zip fs).map (fun (ps, f) => nameStr ps f.2.2.isSome))),
+             ("parsed", Json.arr parsed.toArray)])
+
+def runResolve (j : Json) : R Json := do
+  let n ← fNat j "n"
+  let dj ← field j "dims"
+  let dims : List Nat ⊕ Nat ← match dj with
+    | .arr _ => do pure (.inl (← jList jNat dj))
+    | _ => do pure (.inr (← jNat dj))
+  let fj := fieldD j "flags" Json.null
+  let flags : Option (List Bool ⊕ Bool) ← match fj with
+    | .null => pure none
+    | .arr _ => do pure (some (.inl (← jList jBool fj)))
+    | _ => do pure (some (.inr (← jBool fj)))
+  let res := (List.range n).map (resolveManual dims flags)
+  if res.any (·.isNone) then pure (err "IndexError") else
+  pure (obj [("resolved", Json.arr (res.map (fun r => match r with
+    | some (d, f) => Json.arr #[ofNat d, Json.bool f]
+    | none => Json.null)).toArray)])
 
 def step (_ : Unit) (j : Json) : R (Unit × Json) := do
   let op ← fStr j "op"
   let out ← match op with
     | "dim" => runDim j
     | "time" => runTime j
-    | "pvd" => runPvd j
+    | "pvd_labels" => runPvdLabels j
+    | "names" => runNames j
+    | "resolve" => runResolve j
     | _ => throw s!"unknown op {op}"
   pure ((), out)
 
